@@ -32,7 +32,7 @@ var c06Props = func() []c06Prop {
 			}
 		}
 		if _, ok := vocab.FieldByName(st, "Source"); ok {
-			out = append(out, c06Prop{st.Name(), "Source.Content"})
+			out = append(out, c06Prop{st.Name(), "Source.Content"}, c06Prop{st.Name(), "Source.ContentOnly"}) // a source with and without its media type
 		}
 	}
 	return out
@@ -65,6 +65,8 @@ func c06Build(p c06Prop, nl ap.NaturalLanguageValues) ap.Item {
 	v.FieldByName("Type").SetString(string(vocab.DefaultType[p.GoType]))
 	if p.Field == "Source.Content" {
 		v.FieldByName("Source").Set(reflect.ValueOf(ap.Source{MediaType: "text/markdown", Content: nl}))
+	} else if p.Field == "Source.ContentOnly" {
+		v.FieldByName("Source").Set(reflect.ValueOf(ap.Source{Content: nl}))
 	} else {
 		v.FieldByName(p.Field).Set(reflect.ValueOf(nl))
 	}
@@ -76,7 +78,7 @@ func c06Extract(p c06Prop, it ap.Item) (ap.NaturalLanguageValues, bool) {
 	if !ok || sv.Type().Name() != p.GoType {
 		return nil, false
 	}
-	if p.Field == "Source.Content" {
+	if p.Field == "Source.Content" || p.Field == "Source.ContentOnly" {
 		return sv.FieldByName("Source").Interface().(ap.Source).Content, true
 	}
 	return sv.FieldByName(p.Field).Interface().(ap.NaturalLanguageValues), true
